@@ -9,7 +9,10 @@
          dict_canon = Dictionary::get_correct_capitalization_of,  dict_meta = Dictionary::get_word_metadata
        (projected to the same three facts);
      * char::to_lowercase / char::is_lowercase (used by CharStringExt::to_lower on the *looked-up
-       word only*, never on output characters) are Section variables.
+       word only*, never to produce an output character) and char::to_uppercase are Section
+       variables; to_lowercase and to_uppercase are also what is_case_variant compares (41fa706:
+       the proper-noun block copies a canonical character only over a case variant of itself, or
+       the canonical apostrophe over a curly one).
    What is concrete: every index, slice and subtraction the Rust performs is a checked operation;
    the case operations applied to OUTPUT characters are char::to_ascii_uppercase /
    to_ascii_lowercase (one char to one char, ASCII letters only — Tables_titlecase records that the
@@ -82,6 +85,7 @@ Definition hull (toks : list token) : res (option span) :=
 
 Section TitleCase.
   Variable lower : char -> list char.        (* char::to_lowercase *)
+  Variable upper : char -> list char.        (* char::to_uppercase *)
   Variable is_lowercase : char -> bool.      (* char::is_lowercase *)
   Variable dict_canon : text -> option text.   (* Dictionary::get_correct_capitalization_of *)
   Variable dict_meta : text -> option wmeta.   (* Dictionary::get_word_metadata (projected) *)
@@ -115,14 +119,32 @@ Section TitleCase.
     | _ => Ok None
     end.
 
-  (* output[a..b].iter_mut().enumerate().for_each(|(idx, c)| *c = correct_caps[idx]) — the slice
-     bounds are checked first (see apply_canon); then idx runs over 0..b-a *)
+  (* fn is_case_variant(a, b) = a.to_lowercase().eq(b.to_lowercase()) && a.to_uppercase().eq(b.to_uppercase())
+     (Iterator::eq = equality of the two sequences; shape pinned by tc_case_variant_is_lower_and_upper) *)
+  Definition is_case_variant (a b : char) : bool :=
+    text_eqb (lower a) (lower b) && text_eqb (upper a) (upper b).
+
+  (* canonical == '\'' && matches!( *c, '’' | '‘' | '＇')  — characters from the generated table *)
+  Definition is_apostrophe_pair (c canonical : char) : bool :=
+    (canonical =? tc_canonical_apostrophe_to)%N && existsb (N.eqb c) tc_canonical_apostrophe_from.
+
+  (* the character left at a position holding c when the canonical spelling has `canonical` there *)
+  Definition canon_pick (c canonical : char) : char :=
+    if is_case_variant c canonical || is_apostrophe_pair c canonical then canonical else c.
+
+  (* output[a..b].iter_mut().enumerate().for_each(|(idx, c)| { let canonical = correct_caps[idx];
+       if is_case_variant( *c, canonical) || (canonical == '\'' && matches!( *c, ..)) { *c = canonical; } })
+     — the slice bounds are checked first (see apply_canon); then idx runs over 0..b-a;
+     correct_caps[idx] is indexed before the guard is evaluated, so a canonical spelling shorter than
+     the word panics exactly as before the fix.  `c` comes from iter_mut of the already-checked slice
+     (the checked read below can never fail after slice_chk); not writing = writing c back. *)
   Fixpoint canon_overwrite (out : text) (a n idx : nat) (cc : text) : res text :=
     match n with
     | 0 => Ok out
     | S n' =>
-        do c <- nth_chk cc idx;
-        do out' <- set_nth out (a + idx) c;
+        do canonical <- nth_chk cc idx;
+        do c <- nth_chk out (a + idx);
+        do out' <- set_nth out (a + idx) (canon_pick c canonical);
         canon_overwrite out' a n' (S idx) cc
     end.
 
@@ -193,7 +215,8 @@ End TitleCase.
 
 (* ---------- entry point for the extracted driver ----------
    The driver instantiates the four Section variables by finite tables dumped from the real code:
-   `chars`  : (c, (is_lowercase c, to_lowercase c)) for the characters of the source,
+   `chars`  : (c, (is_lowercase c, (to_lowercase c, to_uppercase c))) for the characters of the source
+              and of the canonical spellings found,
    `canon`  : (word, get_correct_capitalization_of word),  `meta` : (word, get_word_metadata word).
    A key that is missing from a table makes the run answer `None` (reported as "?" by the driver:
    the harness did not dump a fact the model asked for — a correspondence failure, never silent). *)
@@ -209,12 +232,13 @@ Fixpoint assoc_char {A} (tbl : list (char * A)) (c : char) : option A :=
   end.
 
 Definition run_title_case
-           (chars : list (char * (bool * list char)))
+           (chars : list (char * (bool * (list char * list char))))
            (canon : list (text * option text))
            (meta : list (text * option wmeta))
            (toks : list (nat * nat * nat * option wmeta))
            (src : text) : res text :=
-  let lower c := match assoc_char chars c with Some (_, l) => l | None => [c] end in
+  let lower c := match assoc_char chars c with Some (_, (l, _)) => l | None => [c] end in
+  let upper c := match assoc_char chars c with Some (_, (_, u)) => u | None => [c] end in
   let isl c := match assoc_char chars c with Some (b, _) => b | None => false end in
   let dc w := match assoc_text canon w with Some r => r | None => None end in
   let dm w := match assoc_text meta w with Some r => r | None => None end in
@@ -224,22 +248,27 @@ Definition run_title_case
       | 6 => KEmail | 7 => KUrl | 8 => KHostname | 9 => KUnlintable | 10 => KParaBreak | _ => KRegexish
       end in
   let toks' := map (fun q => match q with (s, e, k, m) => mktok (mkspan s e) (kind_of k m) end) toks in
-  make_title_case lower isl dc dm toks' src.
+  make_title_case lower upper isl dc dm toks' src.
 
 (* which dictionary keys does a run ask for?  (used by the driver to report missing facts) *)
 Definition run_missing_keys
-           (chars : list (char * (bool * list char)))
+           (chars : list (char * (bool * (list char * list char))))
            (canon : list (text * option text))
            (meta : list (text * option wmeta))
            (toks : list (nat * nat * nat * option wmeta))
            (src : text) : bool :=
-  let lower c := match assoc_char chars c with Some (_, l) => l | None => [c] end in
+  let lower c := match assoc_char chars c with Some (_, (l, _)) => l | None => [c] end in
   let isl c := match assoc_char chars c with Some (b, _) => b | None => false end in
   existsb (fun q => match q with
      | (s, e, 0, Some md) =>
          match get_content (mkspan s e) src with
          | Ok w =>
-             (m_proper md && match assoc_text canon w with None => true | Some _ => false end)
+             (m_proper md && match assoc_text canon w with
+                              | None => true
+                              | Some None => false
+                              | Some (Some cc) =>   (* is_case_variant asks for the case mappings of the canonical characters *)
+                                  existsb (fun c => match assoc_char chars c with None => true | Some _ => false end) cc
+                              end)
              || match assoc_text meta (to_lower lower isl w) with None => true | Some _ => false end
              || existsb (fun c => match assoc_char chars c with None => true | Some _ => false end) w
          | Panic _ => false
